@@ -3,6 +3,7 @@ CONSTANTS
   P = 5
   Offsets = {0, 3}
   MaxSpans = 2
+  MinSpans = 1
   MaxCopy = 0
   Filters = {"none", "bio", "name"}
 CONSTRAINT CopyBound
